@@ -369,8 +369,12 @@ def run_demo(ctx, name, args, fp, what, env_extra=None, timeout=3000):
     ctx.case(f'demo:{name}', nontrivial_key=f'{name}:{args}', sample=dict(script=name, args=[str(a) for a in args], output_tail=out[-600:]))
     if r.returncode != 0:
         lines = [l for l in out.splitlines() if l.strip()]
+        # a script that ends in an uncaught exception did not REPORT a disagreement, it could not digest what the implementation (or the
+        # model) did: the correspondence no longer checks, but that is not yet an input on which the property fails
+        crashed = any(l.startswith('Traceback (most recent call last)') for l in lines[-40:])
         ctx.violation(fp, f'{what}: ' + ' | '.join(lines[-6:])[:900],
-                      replay=dict(kind='demo', script=name, args=[str(a) for a in args], env=env_extra or {}, output_tail=out[-3000:]))
+                      replay=dict(kind='demo', script=name, args=[str(a) for a in args], env=env_extra or {}, output_tail=out[-3000:]),
+                      **(dict(found_input=False) if crashed else {}))
         return False
     return True
 
